@@ -21,6 +21,12 @@ MODS = [
     ('[amount>50][month=1]', [('amt', 'gt', 50.0), ('month', 1)]),
     ('[amount=100][date:2025-01-01..2025-01-31]', [('amt', 'eq', 100.0), ('date', 'range', (2025, 1, 1), (2025, 1, 31))]),
     ('[amount=15.99]', [('amt', 'eq', 15.99)]),
+    # thresholds with seven significant digits (a conversion that prints them with fewer moves the boundary)
+    ('[amount>=10250.75]', [('amt', 'ge', 10250.75)]),
+    ('[amount<123456.5]', [('amt', 'lt', 123456.5)]),
+    ('[amount:12500.25-12500.75]', [('amt', 'range', 12500.25, 12500.75)]),
+    ('[amount=10250.75]', [('amt', 'eq', 10250.75)]),
+    ('[amount>0.001]', [('amt', 'gt', 0.001)]),
 ]
 CORE_MODS = [0, 1, 5, 8, 11]
 PROFILES = [('C1', 'S1', ['ta']), ('C2', '', []), ('', '', ['tb'])]
@@ -32,9 +38,16 @@ AMT_DATES = [(49.99, (2025, 1, 15)), (50.0, (2024, 12, 31)), (99.99, (2025, 1, 1
              (100.005, (2025, 2, 1)), (100.01, (2025, 1, 15)), (150.0, (2025, 1, 20)), (15.995, (2025, 1, 15)), (15.99, (2025, 3, 3))]
 
 
+# amounts around the long thresholds (only with two of the descriptions: the universe is a product otherwise)
+LONG_AMOUNTS = [10250.74, 10250.75, 10250.77, 10250.8, 123456.2, 123456.5, 123456.9, 12500.22, 12500.25, 12500.75, 12500.78, 0.0, 0.001, 0.01]
+
+
 def txns():
     out = []
     for d in DESCS:
         for a, dt in AMT_DATES:
             out.append({'description': d, 'amount': a, 'date': datetime.date(*dt)})
+    for d in (DESCS[0], DESCS[7]):
+        for a in LONG_AMOUNTS:
+            out.append({'description': d, 'amount': a, 'date': datetime.date(2025, 1, 15)})
     return out
